@@ -465,6 +465,7 @@ package sql
 // that shares the buffer's backing array), and the buffer is emptied only because of that
 //@ func (*AsyncWorker).doBranchCommit
 //@   prop C11
+//@   local copyPhaseCtxs []phaseTwoContext
 //@   requires aw != nil && phaseCtxs != nil && aw.commitWorker != nil && aw.commitWorker.ctx != nil
 //@   modifies heap.all, ghost.all
 //@   let n0 := len(*phaseCtxs)
